@@ -39,6 +39,9 @@ pub enum ContractError {
     #[error("Cannot send funds when expiring order")]
     ExpireWithFunds,
 
+    #[error("Cannot send funds when modifying the contract")]
+    ModifyWithFunds,
+
     #[error("Fee size is not: {fee_rate:?}% of total")]
     InvalidFeeSize { fee_rate: String },
 
